@@ -220,6 +220,8 @@ def run(chk):
     ]
     chk.trusted_base = ["Lean 4.33.0 kernel", "Spec/File.lean", "harness tools/props/c07.py, tools/vlib/edits.py"]
     leanio.prove(chk, "MontePyVerif.Props.C07", THEOREMS, "MontePyVerif")
+    if chk.thorough:
+        leanio.leanchecker(chk, ["MontePyVerif.Props.C07"])
     cases = gen_cases(chk)
     results = pmap(run_case, cases, chunksize=2)
     cards = _cards_for(results, cases)
